@@ -45,14 +45,15 @@
 (***************************************************************************)
 EXTENDS Naturals, FiniteSets, TLC, Json
 
-CONSTANTS Desc, OnCancel, WaitDelay, ReapedGroupKill, GroupWhenTranslated
+CONSTANTS Desc, OnCancel, WaitDelay, ReapedGroupKill, GroupWhenTranslated,
+          TermThenWait   \* FALSE: as coded (TERM, then KILL to the group at once).  TRUE (sensitivity): the kill waits for the direct child to die of TERM first
 
 Procs == {0} \cup Desc
-VARIABLES parent, inGroup, ignTerm, holds, rootExits, startMode, stopMode, launcher,    \* the scenario
+VARIABLES parent, inGroup, ignTerm, holds, rootExits, startMode, stopMode, launcher, rootIgnTerm,    \* the scenario
           spawned, alive, phase, termSent, isOn
 
-scenario == <<parent, inGroup, ignTerm, holds, rootExits, startMode, stopMode, launcher>>
-vars == <<parent, inGroup, ignTerm, holds, rootExits, startMode, stopMode, launcher, spawned, alive, phase, termSent, isOn>>
+scenario == <<parent, inGroup, ignTerm, holds, rootExits, startMode, stopMode, launcher, rootIgnTerm>>
+vars == <<parent, inGroup, ignTerm, holds, rootExits, startMode, stopMode, launcher, rootIgnTerm, spawned, alive, phase, termSent, isOn>>
 
 Init == /\ parent \in [Desc -> Procs] /\ \A d \in Desc : parent[d] < d
         /\ inGroup \in [Desc -> BOOLEAN] /\ ignTerm \in [Desc -> BOOLEAN] /\ holds \in [Desc -> BOOLEAN]
@@ -65,6 +66,8 @@ Init == /\ parent \in [Desc -> Procs] /\ \A d \in Desc : parent[d] < d
         /\ stopMode \in {"ctx", "cancel", "stop"}
         /\ (stopMode = "stop" => startMode = "start")
         /\ launcher \in {"direct", "translated"}
+        \* the direct child itself may ignore SIGTERM (a shell with a trap, an init-like wrapper); it does not then exit by itself either
+        /\ rootIgnTerm \in BOOLEAN /\ (rootIgnTerm => ~rootExits)
         /\ spawned = [p \in Procs |-> p = 0] /\ alive = [p \in Procs |-> p = 0]
         /\ phase = "running" /\ termSent = FALSE /\ isOn = TRUE
 
@@ -89,6 +92,7 @@ RECURSIVE Reachable(_)
 Reachable(d) == spawned[d] /\ alive[parent[d]] /\ (parent[d] = 0 \/ Reachable(parent[d]))
 \* signals: either the direct child only, or TERM to it then KILL to the whole group
 Signals == /\ phase = "requested"
+           /\ ~(TermThenWait /\ rootIgnTerm /\ alive[0])     \* waiting for a death by TERM that never comes
            /\ IF startMode = "execute" /\ ~alive[0] /\ ~ReapedGroupKill
               THEN UNCHANGED alive          \* the direct child was already waited for: nobody left to signal
               ELSE IF KillTree /\ HasGroup
@@ -118,7 +122,7 @@ OutOfScopeSurvivors == {d \in Desc : spawned[d] /\ alive[d] /\ ~inGroup[d]}
 
 Scenario == [parent |-> [d \in Desc |-> parent[d]], inGroup |-> [d \in Desc |-> inGroup[d]], ignTerm |-> [d \in Desc |-> ignTerm[d]],
              holds |-> [d \in Desc |-> holds[d]], rootExits |-> rootExits, startMode |-> startMode, stopMode |-> stopMode,
-             launcher |-> launcher, desc |-> Desc]
+             launcher |-> launcher, rootIgnTerm |-> rootIgnTerm, desc |-> Desc]
 EmitView == scenario
 Emit == PrintT(<<"BEHAVIOUR", ToJson(Scenario)>>)
 =============================================================================
